@@ -214,3 +214,11 @@ W void w_raw_release(const char* p, int32_t x, unsigned kind, Hist* h) {
   h->calls_before = arena.n_free; doc.set(x); h->frees = arena.n_free; h->calls_after = arena.calls; h->size = doc.is<int32_t>(); h->e[0] = doc.as<int32_t>(); }
   h->n = arena.n_free;
 }
+// ---- an add() refused AFTER its slot was allocated (the copied string cannot be allocated) gives the slot back (C05/C19/C06)
+W void w_hist_add_str_fail(int32_t a, int32_t b, const char* p, Hist* h) {
+  arena.reset(); { JsonDocument doc(&arena); doc.add(a); doc.add(a); doc.add(a);       // 3 of the pool's 4 slots
+  arena.failmask = 1u << arena.calls;                                                   // the next allocator call (the string node) fails
+  bool ok1 = doc.add(JsonString(p, 2, JsonString::Copied)); h->calls_before = arena.calls;
+  bool ok2 = doc.add(b); h->calls_after = arena.calls; h->ok_mask = (ok1 ? 1 : 0) | (ok2 ? 2 : 0); observe_arr(doc, h); }
+  h->frees = arena.n_free;
+}
